@@ -2829,12 +2829,15 @@ func TestZZVerifC07Trace(t *testing.T) {
 			sizeBefore := zzC07Size(filepath.Join(x.dir, queryLogFileName))
 			x.record(name, cli, sh)
 			auto := false
+			stalled := false
 			if x.waitFlush() {
 				if fault {
 					auto = len(x.ringTimes()) == 0
 				} else {
 					auto = zzC07Size(filepath.Join(x.dir, queryLogFileName)) != sizeBefore
 				}
+			} else {
+				stalled = true
 			}
 
 			if fault {
@@ -2848,6 +2851,14 @@ func TestZZVerifC07Trace(t *testing.T) {
 				emit("autoflushfail", nil)
 			} else if auto {
 				emit("autoflush", nil)
+			}
+
+			if stalled {
+				// A flush was requested and has not taken the entries out of
+				// the ring within ten seconds.  No action of the spec stalls:
+				// the line ends the validation there, with the projection.
+				emit("stall", nil)
+				x.discard = "stalled"
 			}
 		case roll < 950:
 			q := &zzC07Q{Term: "none", Status: "none", Limit: zzC07DefaultLimit}
@@ -2974,6 +2985,10 @@ func TestZZVerifC07Trace(t *testing.T) {
 
 			emit("restart", map[string]any{"ms": nm})
 		}
+	}
+
+	if x.discard == "stalled" {
+		x.discard = ""
 	}
 
 	w.put(map[string]any{"ev": "summary", "lines": lines, "records": x.clock, "discard": x.discard,
